@@ -80,6 +80,14 @@ def check_spec_objects(acc: Acc, cfg, spec, N: int, payload: dict) -> None:
             if sorted(map(str, via_gen)) != sorted(map(str, g)):
                 acc.violation("generate!=get_objects", "CombinatorialSpecification.generate_objects_of_size", cfg.sid(), f"size {n} parameters {p}", payload)
                 return
+            if len(names) > 1:
+                # keyword arguments are named: their order must not matter
+                rev = dict(reversed(list(zip(names, p))))
+                via_rev = list(spec.generate_objects_of_size(n, **rev))
+                if sorted(map(str, via_rev)) != sorted(map(str, g)) or spec.count_objects_of_size(n, **rev) != len(g):
+                    acc.violation("keyword-order-matters", "AbstractRule.generate_objects_of_size", cfg.sid(),
+                                  f"size {n}: parameters {rev} passed in another order give {len(via_rev)} objects / count {spec.count_objects_of_size(n, **rev)}, expected {len(g)}", payload)
+                    return
             c = spec.count_objects_of_size(n, **dict(zip(names, p)))
             if c != len(g):
                 acc.violation("count!=objects", "CombinatorialSpecification.count_objects_of_size", cfg.sid(),
@@ -234,6 +242,137 @@ def _worker_forms_g(arg) -> Acc:
     return acc
 
 
+# ---------------------------------------------------------------------------
+# (c) a generation / counting call that is interrupted, then retried
+
+
+class _Interrupt(BaseException):
+    pass
+
+
+class _Injector:
+    """Counts the calls of the library methods through which objects / terms flow and
+    raises at the k-th one (k=None: only count)."""
+
+    def __init__(self, phase: str, k: Optional[int]):
+        self.phase = phase
+        self.k = k
+        self.calls = 0
+        self.saved: List[Tuple[Any, str, Any]] = []
+
+    def _wrap(self, cls, name):
+        orig = cls.__dict__[name]
+        inj = self
+
+        def wrapper(self_, *a, **kw):
+            inj.calls += 1
+            if inj.k is not None and inj.calls == inj.k:
+                raise _Interrupt()
+            return orig(self_, *a, **kw)
+
+        self.saved.append((cls, name, orig))
+        setattr(cls, name, wrapper)
+
+    def __enter__(self):
+        import comb_spec_searcher.strategies.rule as rl
+        from comb_spec_searcher.strategies.constructor import CartesianProduct, DisjointUnion
+
+        if self.phase == "objects":
+            for cls in (rl.Rule, rl.EquivalenceRule, rl.EquivalencePathRule, rl.ReverseRule):
+                if "backward_map" in cls.__dict__:
+                    self._wrap(cls, "backward_map")
+        else:
+            for cls in (DisjointUnion, CartesianProduct):
+                self._wrap(cls, "get_terms")
+        return self
+
+    def __exit__(self, *exc):
+        for cls, name, orig in reversed(self.saved):
+            setattr(cls, name, orig)
+        return False
+
+
+def check_interrupted(acc: Acc, cfg, N: int, phase: str) -> None:
+    """Every interruption point k of one generation (or counting) call of size N on a
+    fresh specification, followed by an undisturbed retry on the same specification."""
+    start = cfg.start()
+
+    def fresh():
+        ex = execute(cfg, (), slice_default=0, horizon=60)
+        return ex.spec if ex.outcome == "spec" else None
+
+    def call(spec, n):
+        return spec.get_objects(n) if phase == "objects" else spec.get_terms(n)
+
+    spec = fresh()
+    if spec is None:
+        return
+    try:
+        with _Injector(phase, None) as inj:
+            call(spec, N)
+        K = inj.calls
+    except NotImplementedError:
+        return
+    truth_objs = {n: sorted(map(str, brute_objects(start, n))) for n in range(N + 1)}
+    for k in range(1, K + 1):
+        spec = fresh()
+        payload = {"kind": "interrupt", "cfg": cfg.to_json(), "phase": phase, "k": k, "N": N}
+        interrupted = False
+        try:
+            with _Injector(phase, k):
+                call(spec, N)
+        except _Interrupt:
+            interrupted = True
+        acc.count("traces")
+        acc.count("evaluations")
+        if not interrupted:
+            continue
+        try:
+            for n in range(N + 1):
+                if phase == "objects":
+                    got = sorted(str(o) for lst in spec.get_objects(n).values() for o in lst)
+                    cnt = sum(spec.get_terms(n).values())
+                    if got != truth_objs[n] or cnt != len(truth_objs[n]):
+                        acc.violation("wrong-after-interrupted-call", "Rule._ensure_level_objects", cfg.sid(),
+                                      f"generation of size {N} interrupted at its {k}-th object-map call, then retried: size {n} gives {len(got)} objects "
+                                      f"({got[:6]}), the class has {len(truth_objs[n])}; the specification counts {cnt}", payload)
+                        return
+                else:
+                    cnt = sum(spec.get_terms(n).values())
+                    if cnt != len(truth_objs[n]):
+                        acc.violation("wrong-after-interrupted-call", "Rule._ensure_level", cfg.sid(),
+                                      f"counting of size {N} interrupted at its {k}-th constructor call, then retried: size {n} counts {cnt}, true {len(truth_objs[n])}", payload)
+                        return
+        except Exception as e:  # noqa: BLE001
+            acc.violation("exception-after-interrupted-call", call_site(e), cfg.sid(), f"{phase} interrupted at {k}, retry raises {type(e).__name__}: {str(e)[:160]}", payload)
+            return
+        acc.nt((cfg.sid(), phase, k))
+
+
+def interrupt_configs(tier: str) -> List[Any]:
+    classes = dw.start_classes("quick")
+    res = [Cfg.of(c, "base", "RuleDB") for c in classes]
+    res += [Cfg.of(c.with_(stats=("a",)), "inf2", "Forest") for c in classes[::3]]
+    if tier != "quick":
+        res += [Cfg.of(c.with_(stats=("a", "ab")), "norm+sym", "RuleDB") for c in classes]
+        res += [Cfg.of(c, "ver:a,b", "Forget") for c in classes]
+    return res
+
+
+def _worker_interrupt(arg) -> Acc:
+    cfgj, tier = arg
+    cfg = Cfg.from_json(cfgj)
+    acc = Acc()
+    N = 4 if tier == "quick" else 5
+    for phase in ("objects", "terms"):
+        check_interrupted(acc, cfg, N, phase)
+    if hash(cfg.sid()) % 7 == 0:
+        acc.sample({"interrupted_then_retried": cfg.sid(), "phases": ["objects", "terms"], "size": N})
+    env.clear_library_caches()
+    dw._BF_CACHE.clear()
+    return acc
+
+
 def spec_configs(tier: str) -> List[Any]:
     cfgs = lattice(tier)
     if tier == "quick":
@@ -247,7 +386,8 @@ def run(ctx: Ctx) -> None:
         "(a) every configuration of the search lattice (W and G domains, every rule database), the specifications returned under "
         "the two default slicings: every size <= N and parameter tuple compared with plain enumeration; (b) every rule form of "
         "the C09 enumeration that implements object maps: every object of the parent and every admissible tuple of child "
-        "objects; non-trivial = distinct (configuration, specification) pairs and distinct (rule, form) pairs"
+        "objects; (c) every interruption point of one generation / counting call on a fresh specification followed by an "
+        "undisturbed retry; non-trivial = distinct (configuration, specification) pairs, (rule, form) pairs and (configuration, interruption point) pairs"
     )
     ctx.assumptions = ["plain enumeration of words / parse trees in the domain modules"]
     ctx.bounds = {"configurations": len(cfgs), "sizes_specifications": N_QUICK if ctx.quick else N_THOROUGH, "sizes_forms": 5 if ctx.quick else 6}
@@ -261,9 +401,16 @@ def run(ctx: Ctx) -> None:
         for lo in range(0, total, 40):
             shards.append((ctx.tier, family, [list(s) for s in stats_list[:2]], lo, min(lo + 40, total)))
     ctx.pmap(_worker_forms_g, shards)
+    icfgs = interrupt_configs(ctx.tier)
+    ctx.bounds["interrupted_call_configurations"] = len(icfgs)
+    ctx.pmap(_worker_interrupt, [(c.to_json(), ctx.tier) for c in icfgs])
 
 
 def replay(acc: Acc, payload: dict) -> None:
+    if payload.get("kind") == "interrupt":
+        cfg = Cfg.from_json(payload["cfg"])
+        check_interrupted(acc, cfg, payload["N"], payload["phase"])
+        return
     if payload.get("kind") == "spec":
         cfg = Cfg.from_json(payload["cfg"])
         ex = execute(cfg, (), slice_default=payload["slice_default"], horizon=payload["horizon"])
